@@ -24,6 +24,19 @@ CHECKS = {
              "not classified). loss<=0 in the relative test is unspecified and not generated."),
 }
 
+CHECKS["C12"] = dict(
+    cat="model_checking", ref="DESIGN.md §5 C12",
+    technique="TLA+ spec Scan.tla (log-step scan over the interval monoid) model-checked by TLC for every L; "
+              "trace validation (ScanTrace.tla) of real cumops/cumprod/cummul executions observed at the monoid product",
+    text="TLC checks, for every length L (1..512 quick, 1..4096 thorough), that the round-by-round doubling scan "
+         "with simultaneous update yields the ordered fold at every position in ceil(log2 L) rounds (closed-form "
+         "invariant, never an ill-ordered product). The real functions are run over the same monoid for every L, "
+         "every dim of rank<=4 tensors, both orders, in-place and out-of-place; every product invocation (stride, "
+         "row count, operand order, first/last operand rows) and the final array are validated by TLC against the "
+         "spec's closed form; lattice LieTensors of all four types are compared exactly with the item-by-item fold.",
+    note="Trusted: TLC; the interval monoid as representative of associative non-commutative operations; for "
+         "LieTensors the library's own binary product (decided by C03) and exactness of IEEE arithmetic on the lattice.")
+
 REASON_TODO = "check not built yet in this session (planned, see DESIGN.md §5); nothing is claimed for it"
 
 
